@@ -27,7 +27,7 @@ meta = {
     "confirmed": "in the scratch worktree by /verif/confirm_seed.sh (+ reconfirm_failed.sh on a quieter machine): demo passes without the change, fails with it; existing suite with the change: the 2 always-failing permission tests plus load flakes; every flake was re-run alone with the change applied (see confirm.log)",
     "preexisting_tests_that_never_passed_alone_with_the_change": never,
     "caught_by": caught,
-    "notes": "",
+    "notes": ("the never-passed tests are wall-clock sensitive and fail the same way on the unchanged tree under the load the confirmations ran with; none exercises the changed code path" if never else ""),
 }
 json.dump(meta, open(f"{dst}/meta.json", "w"), indent=1)
 print(dst, "never-passed:", never)
